@@ -155,6 +155,25 @@ def run(chk):
             want_norm = 0.5 * np.linalg.slogdet(A)[1] + 0.5 * n * np.log(2 * np.pi)
             if abs(float(sol.normalization()) - want_norm) > 1e-9 * max(1.0, abs(want_norm)):
                 oracle_bad.append(dict(case, what="normalization != 0.5 log det(2 pi (K + N))", expected=float(want_norm), observed=float(sol.normalization())))
+    # structured (time, band) coordinates: the normalising constant counts DATA POINTS
+    from vcheck import gpcases as _gpc
+    Multiband, _L = _gpc.structured_kernels()
+    for n in (1, 5, 8):
+        tb = np.sort(rng.uniform(0, 5, size=n))
+        band = rng.integers(0, 2, size=n)
+        amps = np.array([1.0, 0.7])
+        dgn = rng.uniform(0.3, 0.6, size=n)
+        kmb = Multiband(kernel=qs.Exp(jnp.asarray(0.9), jnp.asarray(1.2)), amplitudes=jnp.asarray(amps))
+        sol = GaussianProcess(kmb, (jnp.asarray(tb), jnp.asarray(band)), diag=jnp.asarray(dgn), solver=QuasisepSolver).solver
+        A = amps[band][:, None] * amps[band][None, :] * 1.2 ** 2 * np.exp(-np.abs(tb[:, None] - tb[None, :]) / 0.9) + np.diag(dgn)
+        Lf = np.asarray(sol.factor.to_dense())
+        case = dict(op="solver factor with structured coordinates", n=n, t=tb.tolist(), band=band.tolist())
+        hist["solver:structured"] = hist.get("solver:structured", 0) + 1
+        if float(np.max(np.abs(Lf @ Lf.T - A))) > 1e-10 * float(np.max(np.abs(A))):
+            oracle_bad.append(dict(case, what="L L^T != K + N", expected=A.tolist(), observed=(Lf @ Lf.T).tolist()))
+        want_norm = 0.5 * np.linalg.slogdet(A)[1] + 0.5 * n * np.log(2 * np.pi)
+        if abs(float(sol.normalization()) - want_norm) > 1e-9 * max(1.0, abs(want_norm)):
+            oracle_bad.append(dict(case, what="normalization != 0.5 log det(2 pi A)", expected=float(want_norm), observed=float(sol.normalization())))
     model = coq_eval("c07", IMPORTS, exprs, shard=10)
     for (case, meta, dense), mv in zip(expect, model):
         mmeta, mdense = mv[:5], mv[5:]
